@@ -14,8 +14,8 @@ enum { A_NONE, A_STOP, A_DEREG, A_PAUSE, A_START, A_RESUME, A_TELL, A_PUB, A_QUI
        A_RETAIN, A_ERRNO, A_CTXCALL, A_PILL, A_BCAST, A_MAX };
 static const char *AN[] = { "none", "stop", "deregister", "pause", "start", "resume", "tell", "publish", "quit", "subscribe", "unsubscribe", "stash", "unstash", "become", "unbecome",
                             "retain-event", "set-errno", "ctx-call", "poisonpill", "broadcast" };
-static const m_mod_flags MFLAGS[] = { 0, M_MOD_ALLOW_REPLACE, M_MOD_PERSIST, M_MOD_DENY_CTX, M_MOD_DENY_PUB, M_MOD_DENY_SUB, M_MOD_NAME_DUP };
-static const char *MFLAGN[] = { "-", "ALLOW_REPLACE", "PERSIST", "DENY_CTX", "DENY_PUB", "DENY_SUB", "NAME_DUP" };
+static const m_mod_flags MFLAGS[] = { 0, M_MOD_ALLOW_REPLACE, M_MOD_PERSIST, M_MOD_DENY_CTX, M_MOD_DENY_PUB, M_MOD_DENY_SUB, M_MOD_NAME_DUP, M_MOD_NAME_AUTOFREE | M_MOD_USERDATA_AUTOFREE };
+static const char *MFLAGN[] = { "-", "ALLOW_REPLACE", "PERSIST", "DENY_CTX", "DENY_PUB", "DENY_SUB", "NAME_DUP", "NAME_AUTOFREE|USERDATA_AUTOFREE" };
 static const int ERRNOS[] = { EINTR, EAGAIN, ENOENT, EBADF };
 static const size_t UNST[] = { 1, 2, 3, 5, SIZE_MAX };
 static const size_t BSZ[] = { 0, 1, 2, 3 };
